@@ -67,6 +67,10 @@ def main():
                 changed += 1
             print(f"{name} caught={caught} exit={c.returncode} signatures={sigs[:4]}{flag}",
                   flush=True)
+            if c.returncode not in (0, 1) or (c.returncode == 1 and not caught):
+                for ln in (c.stdout + c.stderr).splitlines():
+                    if "HARNESS" in ln or "Error" in ln:
+                        print("    " + ln[:300], flush=True)
         finally:
             shutil.rmtree(tmp, ignore_errors=True)
     print(f"REGRESS-DONE {len(dirs)} changes, {changed} verdicts differ from the archive",
